@@ -61,10 +61,16 @@ def find_fn(src, name, impl=None):
     """Returns (params_src, ret_src, body_src). Skips items under #[cfg(target_pointer_width = "32")]."""
     scope = src
     if impl:
-        m = re.search(r'^impl(?:<[^>]*>)?\s+%s\s*\{' % re.escape(impl), src, re.M)
-        if not m:
+        ms = list(re.finditer(r'^impl(?:<[^>]*>)?\s+%s\s*\{' % re.escape(impl), src, re.M))
+        if not ms:
             raise TErr('impl %s not found' % impl)
-        scope = src[m.end():]
+        # all inherent impl blocks of that type in the file, concatenated
+        scope = ''
+        for m in ms:
+            k = m.end(); depth = 1
+            while depth and k < len(src):
+                depth += (src[k] == '{') - (src[k] == '}'); k += 1
+            scope += src[m.end():k - 1] + '\n'
     for m in re.finditer(r'(?:pub(?:\([a-z]+\))?\s+)?(?:const\s+)?fn\s+%s\s*\(' % re.escape(name), scope):
         pre = scope[:m.start()]
         # attributes directly above
@@ -98,6 +104,8 @@ def parse_type(s, selfty):
         inner = s[1:-1]
         parts = [p for p in split_top(inner) if p.strip()]
         return ('tuple', [parse_type(p, selfty) for p in parts])
+    if re.fullmatch(r'\[\s*Limb\s*;\s*LIMBS\s*\]', s) or re.fullmatch(r'Uint\s*<\s*LIMBS\s*>', s):
+        return 'arr'
     s = ALIAS.get(s, s)
     if s == 'Self':
         return selfty
@@ -128,6 +136,8 @@ def coq_type(t):
         return '(' + ' * '.join(coq_type(x) for x in t[1]) + ')'
     if isinstance(t, tuple) and t[0] == 'struct':
         return 'g_' + t[1]
+    if t == 'arr':
+        return 'list Z'
     return 'bool' if t == 'bool' else 'Z'
 
 # ------------------------------------------------------------------ parser (Pratt)
@@ -197,6 +207,9 @@ class P:
         x = self.next()
         if x[0] == 'num':
             return ('num', x[1], x[2])
+        if x == ('op', '['):
+            e1 = self.expr(); self.expect(';'); e2 = self.expr(); self.expect(']')
+            return ('repeat', e1, e2)
         if x == ('op', '('):
             es = []
             if self.isop(')'):
@@ -216,7 +229,7 @@ class P:
                 path.append(y[1])
             if self.isop('('):
                 return ('call', path, self.args())
-            if self.isop('{') and path[-1] in ('Self',) + tuple(STRUCTS):
+            if self.isop('{') and path[-1] in ('Self', 'Uint') + tuple(STRUCTS):
                 self.next(); fields = []
                 while not self.isop('}'):
                     f = self.next()[1]
@@ -230,7 +243,10 @@ class P:
             return ('var', path[0]) if len(path) == 1 else ('path', path)
         raise TErr('unexpected token %r' % (x,))
     def postfix(self, e):
-        while self.isop('.'):
+        while self.isop('.') or self.isop('['):
+            if self.isop('['):
+                self.next(); ix = self.expr(); self.expect(']')
+                e = ('index', e, ix); continue
             self.next(); x = self.next()
             name = str(x[1])
             if self.isop('('):
@@ -273,6 +289,14 @@ class P:
             if self.isid('while'):
                 self.next(); c = self.expr(); self.expect('{'); b = self.block(); self.expect('}')
                 out.append(('while', c, b)); continue
+            if self.isid() and self.isop('[', 1):
+                # limbs[i] = e;
+                save = self.i
+                name = self.next()[1]; self.next(); ix = self.expr()
+                if self.isop(']') and self.isop('=', 1):
+                    self.next(); self.next(); e = self.expr(); self.expect(';')
+                    out.append(('iassign', name, ix, e)); continue
+                self.i = save
             if self.isid() and self.peek(1)[0] == 'op' and self.peek(1)[1] in ('=', '+=', '-=', '*=', '|=', '&=', '^=', '<<=', '>>='):
                 name = self.next()[1]; op = self.next()[1]; e = self.expr(); self.expect(';')
                 out.append(('assign', name, None if op == '=' else op[:-1], e)); continue
@@ -287,11 +311,13 @@ CONSTS = {('Word', 'BITS'): ('64', 'u32'), ('WideWord', 'BITS'): ('128', 'u32'),
           ('u64', 'BITS'): ('64', 'u32'), ('Limb', 'BITS'): ('64', 'u32'), ('Word', 'MAX'): ('(2 ^ 64 - 1)', 'u64'),
           ('u32', 'MAX'): ('(2 ^ 32 - 1)', 'u32'), ('WideWord', 'MAX'): ('(2 ^ 128 - 1)', 'u128'),
           ('Self', 'FALSE'): ('0', 'choice'), ('Self', 'TRUE'): ('(2 ^ 64 - 1)', 'choice'),
-          ('ConstChoice', 'FALSE'): ('0', 'choice'), ('ConstChoice', 'TRUE'): ('(2 ^ 64 - 1)', 'choice')}
+          ('ConstChoice', 'FALSE'): ('0', 'choice'), ('ConstChoice', 'TRUE'): ('(2 ^ 64 - 1)', 'choice'),
+          ('Limb', 'ZERO'): ('0', 'limb'), ('Limb', 'ONE'): ('1', 'limb'), ('Limb', 'MAX'): ('(2 ^ 64 - 1)', 'limb')}
+ARR_CONSTS = {'ZERO': '(repeat 0 LIMBS)', 'MAX': '(repeat (2 ^ 64 - 1) LIMBS)'}
 
 class Emitter:
     def __init__(self, sigs, selfty, selfname):
-        self.sigs = sigs; self.selfty = selfty; self.selfname = selfname
+        self.sigs = sigs; self.selfty = selfty; self.selfname = selfname; self.const0 = {}
     def isint(self, t):
         return t in BITS
     def unify(self, a, b, what):
@@ -310,9 +336,15 @@ class Emitter:
                 return 'v_self', self.selfty
             if e[1] not in env:
                 raise TErr('unknown variable %s' % e[1])
+            if env[e[1]] is None and self.isint(exp) and exp not in ('choice', 'limb'):
+                env[e[1]] = exp          # `let mut carry = 1;` : the literal's type is fixed by its first typed use
             return 'v_' + e[1], env[e[1]]
         if k == 'path':
             key = tuple(e[1][-2:])
+            if key[0] in ('Self', 'Uint') and self.selfty == 'arr' and key[1] in ARR_CONSTS:
+                return ARR_CONSTS[key[1]], 'arr'
+            if key[0] == 'Self' and self.selfty == 'limb' and ('Limb', key[1]) in CONSTS:
+                return CONSTS[('Limb', key[1])]
             if key in CONSTS:
                 return CONSTS[key]
             raise TErr('unknown path %s' % '::'.join(e[1]))
@@ -381,8 +413,20 @@ class Emitter:
             if op in ('+', '-', '*'):
                 return '(%s %d %s %s)' % ({'+': 'add_', '-': 'sub_', '*': 'mul_'}[op], BITS[t], a, b), t
             raise TErr('operator %s' % op)
+        if k == 'repeat':
+            c, t = self.emit(e[1], env, 'limb')
+            if e[2] != ('var', 'LIMBS'): raise TErr('array length must be LIMBS')
+            if t not in ('limb', 'u64'): raise TErr('array of %s' % t)
+            return '(repeat %s LIMBS)' % c, 'arr'
+        if k == 'index':
+            c, t = self.emit(e[1], env, None)
+            if t != 'arr': raise TErr('indexing a %s' % (t,))
+            ic, it = self.emit(e[2], env, 'u64')
+            return '(nth (Z.to_nat %s) %s 0)' % (ic, c), 'limb'
         if k == 'field':
             c, t = self.emit(e[1], env, None)
+            if t == 'arr' and e[2] == 'limbs':
+                return c, 'arr'
             if t in ('choice', 'limb') and e[2] == '0':
                 return c, 'u64'
             if isinstance(t, tuple) and t[0] == 'tuple' and e[2].isdigit():
@@ -394,6 +438,11 @@ class Emitter:
                     if f == e[2]:
                         return '(g_%s_%s %s)' % (t[1], f, c), ft
             raise TErr('field .%s of %s' % (e[2], t))
+        if k == 'struct' and (e[1] == 'Uint' or (e[1] == 'Self' and self.selfty == 'arr')):
+            fs = dict(e[2])
+            c, t = self.emit(fs['limbs'], env, 'arr')
+            if t != 'arr': raise TErr('Uint { limbs } of %s' % (t,))
+            return c, 'arr'
         if k == 'struct':
             name = self.selfname if e[1] == 'Self' else e[1]
             fs = dict(e[2]); parts = []
@@ -408,14 +457,24 @@ class Emitter:
                 c, t = self.emit(e[2][0], env, 'u64')
                 self.unify(t, 'u64', 'newtype constructor')
                 return c, ty
-            key = path[-1] if len(path) == 1 else ('ConstChoice::' + path[-1] if path[-2] in ('Self', 'ConstChoice') else path[-1])
-            if len(path) > 1 and path[-2] == 'Self' and self.selfname != 'ConstChoice':
-                key = self.selfname + '::' + path[-1]
+            if len(path) == 2 and path[0] in ('Uint', 'Self') and path[1] == 'new' and len(e[2]) == 1 and (path[0] == 'Uint' or self.selfty == 'arr'):
+                c, t = self.emit(e[2][0], env, 'arr')
+                if t != 'arr': raise TErr('Uint::new of %s' % (t,))
+                return c, 'arr'
+            if len(path) == 1:
+                key = path[0]
+            else:
+                owner = path[-2]
+                if owner == 'Self':
+                    owner = {'choice': 'ConstChoice', 'limb': 'Limb', 'arr': 'Uint<LIMBS>'}.get(self.selfty, self.selfname)
+                if owner == 'Uint':
+                    owner = 'Uint<LIMBS>'
+                key = owner + '::' + path[-1] if owner in ('ConstChoice', 'Limb', 'Uint<LIMBS>', 'Reciprocal') else path[-1]
             return self.call(key, e[2], env)
         if k == 'mcall':
             c, t = self.emit(e[1], env, exp if e[2].startswith('wrapping_') else None)
             name = e[2]
-            if self.isint(t) and t not in ('choice', 'limb') or t is None:
+            if (self.isint(t) and t not in ('choice', 'limb')) or t is None:
                 if t is None: raise TErr('method %s on untyped literal' % name)
                 w = BITS[t]
                 if name in ('wrapping_add', 'wrapping_sub', 'wrapping_mul'):
@@ -431,6 +490,10 @@ class Emitter:
                 raise TErr('method %s on %s' % (name, t))
             if t == 'choice':
                 return self.call('ConstChoice::' + name, [('raw', c, t)] + e[3], env)
+            if t == 'limb':
+                return self.call('Limb::' + name, [('raw', c, t)] + e[3], env)
+            if t == 'arr':
+                return self.call('Uint<LIMBS>::' + name, [('raw', c, t)] + e[3], env)
             raise TErr('method %s on %s' % (name, t))
         if k == 'raw':
             return e[1], e[2]
@@ -441,7 +504,7 @@ class Emitter:
         cname, ptys, rty = self.sigs[key]
         if len(ptys) != len(args):
             raise TErr('arity of %s' % key)
-        parts = []
+        parts = ['LIMBS'] if key.startswith('Uint<LIMBS>::') else []
         for a, pt in zip(args, ptys):
             c, t = self.emit(a, env, pt)
             self.unify(t, pt, 'argument of ' + key); parts.append(c)
@@ -459,7 +522,7 @@ class Emitter:
         return "'(" + ', '.join(self.pat(q, u, env).lstrip("'") for q, u in zip(p[1], t[1])) + ')'
     def assigned(self, stmts, acc):
         for s in stmts:
-            if s[0] == 'assign' and s[1] not in acc: acc.append(s[1])
+            if s[0] in ('assign', 'iassign') and s[1] not in acc: acc.append(s[1])
             if s[0] == 'while': self.assigned(s[2], acc)
         return acc
     def stmts(self, ss, env, rty, tail):
@@ -472,16 +535,26 @@ class Emitter:
                 ety = parse_type(s[2], self.selfty) if s[2] else None
                 c, t = self.emit(s[3], env, ety)
                 if t is None:
-                    t = ety or 'u64'          # `let mut i = 0;` counters: usize
+                    t = ety                   # untyped literal: fixed by the first typed use (see 'var')
                 if ety: self.unify(t, ety, 'let')
                 p = self.pat(s[1], t, env)
+                if s[1][0] == 'id':
+                    self.const0[s[1][1]] = (s[3] == ('num', 0, None))
                 out += 'let %s := %s in\n  ' % (p, c)
             elif s[0] == 'assign':
                 if s[1] not in env: raise TErr('assignment to unknown %s' % s[1])
                 t = env[s[1]]
                 rhs = s[3] if s[2] is None else ('bin', s[2], ('var', s[1]), s[3])
-                c, t2 = self.emit(rhs, env, t); self.unify(t, t2, 'assignment')
+                c, t2 = self.emit(rhs, env, t)
+                if t is None and t2 is None: t2 = 'u64'      # a counter never used at another type: usize
+                env[s[1]] = self.unify(env[s[1]], t2, 'assignment')
                 out += 'let v_%s := %s in\n  ' % (s[1], c)
+            elif s[0] == 'iassign':
+                if env.get(s[1]) != 'arr': raise TErr('index assignment to %s' % s[1])
+                ic, it = self.emit(s[2], env, 'u64')
+                c, t2 = self.emit(s[3], env, 'limb')
+                if t2 not in ('limb', 'u64'): raise TErr('array element of type %s' % (t2,))
+                out += 'let v_%s := (upd_ v_%s (Z.to_nat %s) %s) in\n  ' % (s[1], s[1], ic, c)
             elif s[0] == 'while':
                 c, b = s[1], s[2]
                 if c[0] == 'bin' and c[1] == '<' and c[2][0] == 'var' and c[3][0] == 'num' and b and \
@@ -493,6 +566,17 @@ class Emitter:
                         out += 'let v_%s := %d in\n  ' % (iv, kk)
                         out += self.stmts(b[:-1], env, None, '')
                     out += 'let v_%s := %d in\n  ' % (iv, n)
+                elif c[0] == 'bin' and c[1] == '<' and c[2][0] == 'var' and c[3] == ('var', 'LIMBS') and b and \
+                        b[-1] == ('assign', c[2][1], '+', ('num', 1, None)) and c[2][1] not in self.assigned(b[:-1], []) and \
+                        self.const0.get(c[2][1]):
+                    # `let mut i = 0; while i < LIMBS { ..; i += 1 }` : exactly LIMBS iterations
+                    iv = c[2][1]
+                    env[iv] = 'u64'
+                    vs = [iv] + [v for v in self.assigned(b[:-1], []) if v in env and v != iv]
+                    tup = ', '.join('v_' + v for v in vs)
+                    body = self.stmts(b, env, None, '(%s)' % tup)
+                    out += "let '(%s) := Nat.iter LIMBS (fun st => let '(%s) := st in\n  %s) (%s) in\n  " % (tup, tup, body, tup)
+                    self.const0[iv] = False
                 elif c[0] == 'bin' and c[1] == '>' and c[2][0] == 'var' and c[3] == ('num', 0, None) and b and \
                         b[0] == ('assign', c[2][1], '-', ('num', 1, None)) and c[2][1] not in self.assigned(b[1:], []):
                     iv = c[2][1]
@@ -512,7 +596,7 @@ class Emitter:
         return out + tail
 
 def translate(src, name, cname, impl, sigs):
-    selfty = {'ConstChoice': 'choice', 'Reciprocal': ('struct', 'Reciprocal'), 'Limb': 'limb'}.get(impl)
+    selfty = {'ConstChoice': 'choice', 'Reciprocal': ('struct', 'Reciprocal'), 'Limb': 'limb', 'Uint<LIMBS>': 'arr'}.get(impl)
     params, ret, body = find_fn(src, name, impl)
     ps = []
     for p in split_top(params):
@@ -548,6 +632,8 @@ def gen_group(repo, group, sigs):
                 ss = P(toks).block()
                 code = em.stmts(ss, env, rty, '')
                 args = ' '.join('(v_%s : %s)' % (n, coq_type(t)) for n, t in ps)
+                if f.get('impl') == 'Uint<LIMBS>':
+                    args = '(LIMBS : nat) ' + args
                 bodies.append('(* %s :: %s *)\nDefinition %s %s : %s :=\n  %s.\n' % (f['src'], key, f['coq'], args, coq_type(rty), code))
                 report.append((key, 'ok'))
                 continue
